@@ -1,6 +1,6 @@
 SPECIFICATION Spec
 CONSTANTS
-  Names = {"a", "b", "XLONG", "LONG", ""}
+  Names = {"a", "b", "XLONG", "LONG", "", "XUNI"}
   BaseLens = {0, 2}
   Align = {}
   EndAlign = {}
